@@ -94,6 +94,11 @@ def run_case(case):
     if kind in ('ho', 'ho2'):
         resp_octets[0] = make_handover(max(size - 2, 30), 'Hs', 9)
         resp_octets[1] = make_handover(max(size - 1, 30), 'Hs', 11)
+        if case.get('rsplit'):
+            # a select message in which a record ends exactly with the
+            # k-th fragment the client receives
+            resp_octets[0] = make_handover(case['rsplit'] + case['rtail'],
+                                           'Hs', 9, split=case['rsplit'])
 
     class Snep(nfc.snep.SnepServer):
         def process_put_request(self, records):
@@ -120,6 +125,12 @@ def run_case(case):
             sched.vsleep(0.03)
         return orig_recv(self)
 
+    class Snep2(nfc.snep.SnepServer):
+        def process_put_request(self, records):
+            obs['put2'].append(b''.join(ndef.message_encoder(records)))
+            return 0x81
+    obs['put2'] = []
+
     def srv_startup(llc):
         if case.get('slow') == 'server':
             slow['llc'] = llc
@@ -127,6 +138,10 @@ def run_case(case):
             obs['srv'] = Snep(llc, max_acceptable_length=(
                 limit if kind == 'put' else BIG),
                 recv_miu=case['srv_miu'], recv_buf=case['srv_rw'])
+            if case.get('reuse'):
+                obs['srv2'] = Snep2(llc, 'urn:nfc:xsn:verif.example:snep',
+                                    recv_miu=case['srv_miu'],
+                                    recv_buf=case['srv_rw'])
         else:
             obs['srv'] = Ho(llc, recv_miu=case['srv_miu'],
                             recv_buf=case['srv_rw'])
@@ -134,6 +149,8 @@ def run_case(case):
 
     def srv_app(llc, ctx):
         obs['srv'].start()
+        if 'srv2' in obs:
+            obs['srv2'].start()
         return True
 
     def cli_app(llc, ctx):
@@ -142,7 +159,23 @@ def run_case(case):
 
         def work():
             try:
-                if kind == 'put':
+                if kind == 'put' and case.get('reuse'):
+                    # ONE client object: requests over temporary connections
+                    # to the default server and over an explicit connection
+                    # to a second service, in the order given
+                    c = nfc.snep.SnepClient(llc)
+                    r = []
+                    for i, step in enumerate(case['reuse']):
+                        if step == 'connect2':
+                            c.connect('urn:nfc:xsn:verif.example:snep')
+                        elif step == 'close':
+                            c.close()
+                        else:
+                            r.append(c.put_octets(make_octets(size + i, i)))
+                    if c.socket is not None:
+                        c.close()
+                    obs['client'] = ('ret', r)
+                elif kind == 'put':
                     c = nfc.snep.SnepClient(llc)
                     obs['client'] = ('ret', c.put_octets(msg))
                 elif kind == 'get' and case.get('other_miu'):
@@ -230,7 +263,27 @@ def judge(case, s, ctx, net, obs, msg, msg2, resp):
                     dict(error=repr(c[1]))))
         return bad, 'exc'
     outcome = (kind, c[0])
-    if kind == 'put':
+    if kind == 'put' and case.get('reuse'):
+        # every put goes to the service the client is connected to at that
+        # moment (no explicit connection: the default SNEP server)
+        want1, want2, where = [], [], 1
+        for i, step in enumerate(case['reuse']):
+            if step == 'connect2':
+                where = 2
+            elif step == 'close':
+                where = 1
+            else:
+                (want1 if where == 1 else want2).append(
+                    make_octets(size + i, i))
+        if obs['put'] != want1 or obs['put2'] != want2:
+            bad.append(('put|reuse|delivered-to-another-service',
+                        dict(default_server=[len(x) for x in obs['put']],
+                             second_server=[len(x) for x in obs['put2']],
+                             expected=[[len(x) for x in want1],
+                                       [len(x) for x in want2]])))
+        if c != ('ret', [True] * len(want1 + want2)):
+            bad.append(('put|reuse|result', dict(client=repr(c))))
+    elif kind == 'put':
         if limit >= size:
             if obs['put'] != [msg]:
                 bad.append(('put|delivery|%s' % dclass(obs['put'], msg),
@@ -367,6 +420,22 @@ def cases(tier):
                                18 * min(m_up, 248) + 11):
                         out.append(dict(base, kind=kind, size=sz, slow=slow,
                                         agf=sz % 2 == 0))
+            # one SnepClient object used for several requests: temporary
+            # connections to the default server, an explicit connection to
+            # a second service, and back
+            for reuse in (('put', 'connect2', 'put', 'put'),
+                          ('connect2', 'put', 'close', 'put', 'put'),
+                          ('put', 'put', 'connect2', 'put', 'close', 'put')):
+                for sz in (40, 2 * m_up + 3):
+                    out.append(dict(base, kind='put', size=sz, reuse=reuse,
+                                    agf=sz > 40))
+            # handover select messages in which a record ends exactly with
+            # the k-th fragment the client receives
+            m_down = min(base['cli_miu'], cli_link)
+            for k in (1, 2):
+                for tail in (9, 140):
+                    out.append(dict(base, kind='ho', size=60,
+                                    rsplit=k * m_down, rtail=tail, agf=k == 1))
             # two connections to the SNEP server at the same time, with
             # different receive MIUs; the Get runs on the one with MIU 128
             for om in (248, 1024):
@@ -423,7 +492,9 @@ def main(tier='quick', seed=0, part=None):
         "negotiated connection MIU (k=1..3) x aggregation on/off, plus "
         "acceptable-length limits s-1, s, s+1, plus a slow consumer (30 ms "
         "before every recv) on the server or client side for multi-fragment "
-        "messages, plus Get with a second idle connection (receive MIU 248 / "
+        "messages, plus one SnepClient object used for several Puts over "
+        "temporary and explicit connections to two services, handover select "
+        "messages whose k-th fragment ends with a record, Get with a second idle connection (receive MIU 248 / "
         "1024, made before / after) to the same server; one whole-stack run "
         "per point; "
         "distinct = distinct grid point (all non-trivial: a message crosses "
